@@ -762,6 +762,20 @@ def cleanup_stale_scratch(max_age_s=3 * 3600):
                     shutil.rmtree(p, ignore_errors=True)
     except OSError:
         pass
+    # the observation cache is keyed by source hashes, so entries of trees that no longer exist are never read again
+    try:
+        now = time.time()
+        ents = [(os.path.getmtime(os.path.join(runner.CACHE, n)), os.path.getsize(os.path.join(runner.CACHE, n)), n) for n in os.listdir(runner.CACHE)]
+        total = sum(e[1] for e in ents)
+        for mt, sz, n in sorted(ents):
+            if now - mt > 36 * 3600 or total > 3 * 2 ** 30:
+                try:
+                    os.remove(os.path.join(runner.CACHE, n))
+                    total -= sz
+                except OSError:
+                    pass
+    except OSError:
+        pass
 
 
 def main(argv):
